@@ -41,19 +41,31 @@ def sg_fields(df):
     return _fields(df, SG_KEYS, SG2EM)
 
 
+WHY = [""]          # why the last em_fields / sg_fields call returned None (for witnesses)
+
+
 def _fields(df, keys, rename):
     out = {}
+    WHY[0] = ""
     try:
         cols = set(map(str, df.columns))
         for k in keys:
             if k not in cols:
+                WHY[0] = "field %s is missing" % k
                 return None
             v = df[k]
             if getattr(v, "ndim", 1) != 1:
+                WHY[0] = "field %s is not one column" % k
+                return None
+            if getattr(v.dtype, "kind", "O") not in "iuf":
+                # a column left as text / object ('3e-06' strings) is not a reproduced numeric field, even if its strings
+                # could be parsed: np.array(..., dtype=float) would silently hide that
+                WHY[0] = "field %s has non-numeric dtype %s (first value %r)" % (k, v.dtype, v.iloc[0] if len(v) else None)
                 return None
             a = np.array(v.to_numpy(), dtype=np.float64, copy=True)
             out[rename[k] if rename else k] = a
-    except Exception:
+    except Exception as e:
+        WHY[0] = "%s: %s" % (type(e).__name__, str(e)[:120])
         return None
     return out
 
@@ -85,8 +97,10 @@ def expected_motl_idx(ids, reset):
     return np.arange(1, len(ids) + 1, dtype=float) if reset else np.asarray(ids, dtype=float)
 
 
-def check_halfset_idx(halfset, motl_idx, ids, reset):
-    """-> None or witness.  halfset: list of objects/tokens, motl_idx: float array."""
+def check_halfset_idx(halfset, motl_idx, ids, reset, star=False):
+    """-> None or witness.  halfset: list of objects/tokens, motl_idx: float array.  star=True: motl_idx was read from a
+    6-decimal STAR file and is compared within STAR precision (0.5e-6 + 1e-12|x|: exact for integers below ~5e11; the
+    writer's 6-decimal rounding may move integers close to 2**53 by one)."""
     n = len(ids)
     if len(halfset) != n or len(motl_idx) != n:
         return {"what": "row count", "rows": [len(halfset), len(motl_idx)], "expected_rows": n}
@@ -98,7 +112,7 @@ def check_halfset_idx(halfset, motl_idx, ids, reset):
                 "n_wrong_rows": len(bad), "n_rows": n}
     exp_i = expected_motl_idx(ids, reset)
     mi = np.asarray(motl_idx, dtype=float)
-    neq = ~(mi == exp_i)
+    neq = ~(np.abs(mi - exp_i) <= star_tol(exp_i)) if star else ~(mi == exp_i)
     if neq.any():
         r = int(np.argmax(neq))
         return {"what": "motl_idx", "reset_index": bool(reset), "row": r, "got": float(mi[r]), "expected": float(exp_i[r]),
@@ -163,7 +177,9 @@ def cmp_positions_updated(got, exp, mode, pos_slack=1.0):
                 "abs_err": float(abs(Q[r, c] - P[r, c])), "n_wrong_cells": int(bad.sum()), "mode": mode}
     for p, s in zip(POS, SHIFT):
         gp, gs = got[p], got[s]
-        bad = ~(gp == np.round(gp))
+        # in memory: exactly integral.  Read from a 6-decimal file: integral to STAR precision (the same thing for any value the
+        # 6 decimals can resolve; only for |x| >= 2**51 may the writer's rounding move an integer by its own ulp)
+        bad = ~(gp == np.round(gp)) if mode == "exact" else ~(np.abs(gp - np.round(gp)) <= star_tol(gp) - 0.5e-6 + 1e-9)
         if bad.any():
             return _first(p, bad, gp, np.round(gp), {"what": "position not integral after update_coord"})
         bad = ~(np.abs(gs) <= 0.5)
@@ -238,8 +254,26 @@ def _isfloat(t):
 
 
 # ---- independent STOPGAP writer --------------------------------------------------------------------
+def odd_token(v):
+    """Unusual but valid number spellings: .5  -.5  5.  +3  1E5 ; None when the value has no such spelling."""
+    v = float(v)
+    if v == 0.5:
+        return ".5"
+    if v == -0.5:
+        return "-.5"
+    if v == int(v) and abs(v) < 1e15:
+        k = int(v)
+        if k != 0 and k % 100000 == 0:
+            return "%dE5" % (k // 100000)
+        if k % 3 == 0:
+            return "%d." % k
+        if k % 3 == 1 and k >= 0:
+            return "+%d" % k
+    return None
+
+
 def write_sg_star(path, F, halfset, motl_idx, order=None, nl="\n", sep="\t", numbered=False, fmt="repr", int_tokens=False,
-                  comment=None):
+                  comment=None, odd_tokens=False):
     """Write a STOPGAP motive list from plain arrays (F keyed by cryoCAT names).  fmt: 'repr' (shortest round-trip),
     '%.6f', '%.10g'.  int_tokens: integral values of the id-like fields are written without a decimal point."""
     order = list(order) if order is not None else list(SG_CANON)
@@ -248,6 +282,8 @@ def write_sg_star(path, F, halfset, motl_idx, order=None, nl="\n", sep="\t", num
 
     def tok(name, v):
         v = float(v)
+        if odd_tokens and odd_token(v) is not None:
+            return odd_token(v)
         if int_tokens and name in idlike and v == int(v):
             return str(int(v))
         if fmt == "repr":
